@@ -192,7 +192,7 @@ func normalize(ivs []iv) []iv {
 	out := []iv{ivs[0]}
 	for _, r := range ivs[1:] {
 		last := &out[len(out)-1]
-		if r.s <= last.l+1 {
+		if last.l == ^uint64(0) || r.s <= last.l+1 {
 			if r.l > last.l {
 				last.l = r.l
 			}
